@@ -25,7 +25,8 @@ META = {
                   "triples over absent | states x ts x lock register, owners x ts x owned partition) under the statement's provisos. "
                   "The laws are tied to the code by replaying every enumerated Merge(mine, other, localCAS) - including the collision, "
                   "equal-timestamp and zero-timestamp operands the laws exclude - on real objects (token lists shuffled and duplicated, "
-                  "3 repetitions for map order, virtual clock = the case's now) and comparing receiver and returned change with the "
+                  "3 repetitions for map order, virtual clock = the case's now; the quick tier replays a seed-chosen 1/16 slice of the "
+                  "two-id collision universe and every third convergence triple, the thorough tier half / all of them) and comparing receiver and returned change with the "
                   "specification's, by executing the convergence schedules on real objects, and by validating recorded random merge "
                   "sequences on descriptors with 12 instances / 8 partitions + 6 owners against the specification.",
     "level_note": "Exhaustive within the stated small universes only; associativity/convergence for several ids relies on merge being "
@@ -60,27 +61,8 @@ def run(ctx):
                     ("RingMergeLaws", "MC_laws_pairs_disjoint.cfg"),
                     ("PartitionMergeLaws", "MC_plaws_part_full.cfg"), ("PartitionMergeLaws", "MC_plaws_own.cfg"),
                     ("PartitionMergeLaws", "MC_plaws_mixed.cfg")]
-    case_files = []
-    expect = 0
-    for module, cfg in law_runs:
-        r = rc.tlc_ok(ctx, module, cfg, coverage=(not quick and cfg.startswith(("MC_laws_full", "MC_plaws_part_full"))))
-        if rc.zero_coverage(r):
-            raise verif.Inconclusive("%s: actions with zero coverage: %s" % (cfg, rc.zero_coverage(r)))
-        if r.emitted:
-            case_files.append(r.out_path)
-            expect += r.emitted
-        elif "EmitConv = TRUE" in open(os.path.join(verif.SPEC, rc.FAMILY, cfg)).read():
-            raise verif.Inconclusive("%s: the provisos filtered every triple away (vacuous laws)" % cfg)
-
-    if not quick:   # the provisos are not decoration: without them TLC must refute commutativity
-        r = ctx.tlc(rc.FAMILY, "RingMergeLaws", cfg="MC_laws_noproviso.cfg", workers=rc.WORKERS or 2, timeout=rc.TLC_TIMEOUT, count=False)
-        if r.timed_out or r.error or r.violated != "CommWithoutProvisos":
-            raise verif.Inconclusive("MC_laws_noproviso.cfg: expected a counterexample to unconditional commutativity, got %s %s" % (
-                r.violated, (r.error or "")[:200]))
-        ctx.extra["provisos_shown_necessary"] = True
-
-    # ---- 2. spec -> code: every enumerated merge ---------------------------------------------
-    nsl = 8 if quick else 2
+    # ---- 2. spec -> code: every enumerated merge (generated alongside the law runs) -----------
+    nsl = 16 if quick else 2
     gen_runs = [("RingMergeGen", "MC_gen_n1.cfg", None),
                 ("RingMergeGen", "MC_gen_n2.cfg", {"@@NSLICES@@": nsl, "@@SLICE@@": ctx.seed % nsl}),
                 ("PartitionMergeGen", "MC_pgen_part.cfg", None), ("PartitionMergeGen", "MC_pgen_own.cfg", None),
@@ -88,32 +70,75 @@ def run(ctx):
     if not quick:
         gen_runs += [("RingMergeGen", "MC_gen_n2_full.cfg", {"@@NSLICES@@": 8, "@@SLICE@@": ctx.seed % 8}),
                      ("PartitionMergeGen", "MC_pgen_own2.cfg", None), ("PartitionMergeGen", "MC_pgen_two.cfg", None)]
-    for module, cfg, subst in gen_runs:
-        r = rc.tlc_ok(ctx, module, cfg, subst=subst)
-        if r.emitted == 0:
-            raise verif.Inconclusive("%s emitted no cases" % cfg)
-        case_files.append(r.out_path)
-        expect += r.emitted
-    cases = rc.concat(ctx, "c03_cases.ndjson", case_files)
+    width = 4
+    wk = rc.par_workers(width)
 
-    # ---- 3. one harness run: replay + recording ----------------------------------------------
+    def law(module, cfg):
+        def f():
+            r = rc.tlc_ok(ctx, module, cfg, workers=wk,
+                          coverage=(not quick and cfg.startswith(("MC_laws_full", "MC_plaws_part_full"))))
+            if rc.zero_coverage(r):
+                raise verif.Inconclusive("%s: actions with zero coverage: %s" % (cfg, rc.zero_coverage(r)))
+            if not r.emitted and "EmitConv = TRUE" in open(os.path.join(verif.SPEC, rc.FAMILY, cfg)).read():
+                raise verif.Inconclusive("%s: the provisos filtered every triple away (vacuous laws)" % cfg)
+            return r
+        return f
+
+    def gen(module, cfg, subst):
+        def f():
+            r = rc.tlc_ok(ctx, module, cfg, subst=subst, workers=wk)
+            if r.emitted == 0:
+                raise verif.Inconclusive("%s emitted no cases" % cfg)
+            return r
+        return f
+
+    def noproviso():   # the provisos are not decoration: without them TLC must refute commutativity
+        r = rc.locked_tlc(ctx, rc.FAMILY, "RingMergeLaws", cfg="MC_laws_noproviso.cfg", workers=2, timeout=rc.TLC_TIMEOUT, count=False)
+        if r.timed_out or r.error or r.violated != "CommWithoutProvisos":
+            raise verif.Inconclusive("MC_laws_noproviso.cfg: expected a counterexample to unconditional commutativity, got %s %s" % (
+                r.violated, (r.error or "")[:200]))
+        ctx.extra["provisos_shown_necessary"] = True
+        return None
+
+    # code -> spec runs beside the model checking: record random merge sequences, then let TLC recompute every call
     tdir = os.path.dirname(ctx.path("traces", "x"))
     tn, tm, tnp, tno = 12, 24, 8, 6
     steps = 500 if quick else 6000
-    env = {"VERIF_IN": cases, "VERIF_TRACE_DIR": tdir, "VERIF_TN": tn, "VERIF_TM": tm, "VERIF_TNP": tnp, "VERIF_TNO": tno,
-           "VERIF_TSTEPS": steps, "VERIF_TMAXNOW": max(60, steps // 4), "VERIF_REPS": 3}
-    if os.environ.get("VERIF_CORRUPT"):
-        env["VERIF_CORRUPT"] = os.environ["VERIF_CORRUPT"]
+
+    def record_and_validate():
+        env = {"VERIF_TRACE_DIR": tdir, "VERIF_TN": tn, "VERIF_TM": tm, "VERIF_TNP": tnp, "VERIF_TNO": tno,
+               "VERIF_TSTEPS": steps, "VERIF_TMAXNOW": max(60, steps // 4)}
+        res = rc.locked_harness(ctx, "c03", "^TestC03$", env=env, timeout=3000)
+        if res.get("fatal") or res.get("mismatches"):
+            return (res, 0, 0)
+        n1, n2 = rc.run_parallel([
+            lambda: rc.validate_trace(ctx, "RingMergeTrace", os.path.join(tdir, "ring_trace.ndjson"),
+                                      {"@@N@@": tn, "@@M@@": tm, "@@NREP@@": 3}, "ring trace", "ring:trace"),
+            lambda: rc.validate_trace(ctx, "PartitionMergeTrace", os.path.join(tdir, "part_trace.ndjson"),
+                                      {"@@NP@@": tnp, "@@NO@@": tno, "@@NREP@@": 3}, "partition trace", "part:trace")], 2)
+        return (res, n1, n2)
+
+    # the longest runs first
+    jobs = [gen(*g) for g in gen_runs[1:2]] + [law(*l) for l in law_runs] + [gen(*g) for g in gen_runs[:1] + gen_runs[2:]]
+    if not quick:
+        jobs.append(noproviso)
+    results = rc.run_parallel([record_and_validate] + jobs, width + 1)
+    rec_res, n1, n2 = results[0]
+    results = results[1:]
+    case_files = [r.out_path for r in results if r is not None and r.emitted]
+    expect = sum(r.emitted for r in results if r is not None)
+    cases = rc.concat(ctx, "c03_cases.ndjson", case_files)
+
+    # ---- 3. spec -> code: one harness run replays every case ------------------------------------
+    env = {"VERIF_IN": cases, "VERIF_REPS": 3,
+           "VERIF_CONV_EVERY": 3 if quick else 1}   # quick: every third convergence triple (offset by the seed) is executed
     res = ctx.run_harness("c03", "^TestC03$", env=env, timeout=3000)
-    done = int(res.get("cases", 0)) + int((res.get("extra") or {}).get("mismatches_total", 0))
+    done = int(res.get("cases", 0)) + int((res.get("extra") or {}).get("mismatches_total", 0)) + int((res.get("extra") or {}).get("conv_skipped", 0))
     if not res.get("fatal") and done < expect and not res.get("mismatches"):
         raise verif.Inconclusive("harness executed %s of %d cases" % (done, expect))
     ctx.absorb(res, "replay")
 
-    # ---- 4. code -> spec: recorded merges validated by TLC ------------------------------------
-    n1 = rc.validate_trace(ctx, "RingMergeTrace", os.path.join(tdir, "ring_trace.ndjson"),
-                           {"@@N@@": tn, "@@M@@": tm, "@@NREP@@": 3}, "ring trace", "ring:trace")
-    n2 = rc.validate_trace(ctx, "PartitionMergeTrace", os.path.join(tdir, "part_trace.ndjson"),
-                           {"@@NP@@": tnp, "@@NO@@": tno, "@@NREP@@": 3}, "partition trace", "part:trace")
+    # ---- 4. code -> spec (ran beside steps 1-2) ---------------------------------------------------
+    ctx.absorb(rec_res, "record")
     ctx.extra["trace_events_validated"] = n1 + n2
     return "model_checking"
